@@ -40,6 +40,15 @@ def check(ctx, cfg):
     r5(ctx, cfg)
     r6(ctx, cfg)
     r7(ctx, cfg)
+    r8(ctx, cfg)
+
+
+def r8(ctx, cfg):
+    """premise shared with C07: a contract iterates its storage through a prefixed view; what bounds the iteration to the
+    contract's own window is range_with_prefix: start and end handed to the chain store are prefix++bound, or the
+    prefix / its upper bound when the contract gives none (an unbounded end only for a namespace that has no upper bound)"""
+    from rules import C07
+    C07.r3(ctx, cfg, R="C08.R8")
 
 
 def r7(ctx, cfg):
